@@ -10,6 +10,7 @@ CONSTANTS
   Entries = {"run", "call"}
   TracerStyles = {"none"}
   Threadeds = {FALSE}
+  Givens = {}
   Flags = {}
 INVARIANT Restored
 INVARIANT Contained
